@@ -3,7 +3,8 @@ from ..core import gz, glist, gbool
 
 ID = "C21"
 PROPS = ["theories/Props/C21.vo"]
-PINNED = ["C21_holds_outside", "C21_refuted_records_shared_across_pollers", "C21_reuse_clean", "C21_oracle_sound"]
+PINNED = ["C21_holds_outside", "C21_refuted_records_shared_across_pollers", "C21_reuse_clean", "C21_oracle_sound",
+          "C21_events_do_not_matter"]
 CASES_MODULE = "Cases.C21"
 HEADER = ""
 AREA = "net21"
@@ -121,7 +122,9 @@ LEVEL_TEXT = ("Unbounded theorems (all histories, any length, any descriptors, a
               "loops), hooked close and shutdown: C21_holds_outside (one poller: after every step the interest the OS "
               "holds for each descriptor equals the union of the outstanding interests), C21_reuse_clean (a descriptor "
               "number closed through the runtime and handed out again has no record and no OS entry), and the "
-              "refutation witness of the recorded finding records_shared_across_pollers (two loops). The model is tied "
+              "refutation witness of the recorded finding records_shared_across_pollers (two loops); "
+              "C21_events_do_not_matter (any number of pollers: event processing by the loops' own threads changes no "
+              "result and no OS-side table, which is why it need not be scheduled by the harness). The model is tied "
               "to the real runtime by running the same histories through the public entry points and comparing the "
               "results and the /proc view of every loop's epoll table inside Coq, for 1, 2 and 3 loops.")
 LEVEL_NOTE = ("Trusted: Coq kernel + vm_compute; hand-written model validated on sampled histories only; epoll semantics "
